@@ -10,6 +10,8 @@ CACHE = os.path.join(VERIF, ".cache")
 
 # property -> list of (harness file, harness name, function, bound label)
 HARNESSES = {
+    "C01": [("trim_cr.rs", "trim_cr_contract", "lib::trim_cr", "bounded: slice length <= 8, arbitrary bytes; counterexample source only - the contract is proved for every slice by Verus")],
+    "C02": [("trim_cr.rs", "trim_cr_contract", "lib::trim_cr", "bounded: slice length <= 8, arbitrary bytes; counterexample source only - the contract is proved for every slice by Verus")],
     "C12": [("trim_cr.rs", "trim_cr_contract", "lib::trim_cr", "bounded: slice length <= 8, arbitrary bytes; counterexample source only - the contract is proved for every slice by Verus")],
     "C13": [("trim_cr.rs", "trim_cr_contract", "lib::trim_cr", "bounded: slice length <= 8, arbitrary bytes; counterexample source only - the contract is proved for every slice by Verus")],
     "C09": [("policy.rs", "std_policy_formula", "policy::StdPolicy::grow_to", "complete: loop-free, every current size <= isize::MAX/2"),
